@@ -13,11 +13,14 @@ import itertools
 from typing import Dict, List, Optional, Tuple
 
 from mdsa import regexlang as RL
-from mdsa.astutil import call_attr, call_recv, kwarg, local_calls, norm, store_targets
+from mdsa.astutil import arg_or_kw, call_attr, call_recv, kwarg, local_calls, norm, store_targets
 from mdsa.cfg import walk_local
 from mdsa.loader import AnalysisError, NoFold
 
-from .common import Ctx, local_defs, node_of
+from mdsa import match as M
+
+from .sem import F
+from .common import Ctx, fold_str, local_defs, node_of
 
 R = "ih5.record"
 REC = f"{R}.IH5Record"
@@ -324,20 +327,28 @@ def r2_mode_dispatch(P, rep, ctx):
                 rep.check(gs == ws, "C03.R2", fi.qual, f"{what}: effects == contract {ws}", fi.loc(), construct=f"dispatch cell {what}",
                           message=f"open-mode contract violated for {what}: constructor does {gs}, contract says {ws}")
     # effects happen only after the mode was validated
-    val = [t.idx for t in g.nodes if t.kind == "test" and norm(t.exprs[0]) == "mode not in OPEN_MODES"]
+    f = F(ctx, fi)
+    bad_mode = f.tests(f"{fi.params[2]} not in OPEN_MODES")
     eff = [n.idx for n in g.nodes if any(call_attr(c) in ("_create", "_open", "find_files", "create_patch") for c in g.calls(n.idx))]
-    rep.check(bool(val) and all(g.every_path_passes(val, e) for e in eff), "C03.R2", fi.qual, "the mode is validated before any effect", fi.loc(), construct="mode validation first", message="IH5Record.__init__ touches the file system before validating the open mode")
-    ce = P.func(f"{REC}.create_patch")
-    rep.check("self._expect_not_ro()" in norm(ce.node), "C03.R2", ce.qual, "mode 'r' cannot create patches", ce.loc(), construct="create_patch not-ro", message="create_patch does not refuse records opened 'r'")
-    md = P.func(f"{REC}.mode")
-    rep.check("return 'r+' if self._allow_patching else 'r'" in norm(md.node), "C03.R2", md.qual, "reported mode reflects _allow_patching", md.loc(), construct="mode property", message="mode property does not reflect _allow_patching")
-    cr = P.func(f"{REC}._create")
-    g2 = ctx.cfg(cr)
-    tt = [t.idx for t in g2.nodes if t.kind == "test" and norm(t.exprs[0]) == "truncate and path.is_file()"]
-    dl = [n.idx for n in g2.nodes if any(call_attr(c) == "delete_files" for c in g2.calls(n.idx))]
-    rep.check(bool(tt) and bool(dl) and all(any(g2.edge_dominates(t, "T", d) for t in tt) for d in dl), "C03.R2", cr.qual, "an existing record is deleted only when truncation was requested", cr.loc(), construct="truncate guard", message="_create deletes existing files without `truncate`")
-    nc = P.func(f"{REC}._new_container")
-    rep.check("h5py.File(path, mode='x', userblock_size=USER_BLOCK_SIZE)" in norm(nc.node), "C03.R2", nc.qual, "new containers are created exclusively ('x'): x / w- / a-when-absent refuse an existing file", nc.loc(), construct="exclusive create", message="_new_container does not create the file with mode 'x'")
+    rep.check(f.refuses(bad_mode) and f.all_hit_before(eff, nodes=f.test_nodes(bad_mode)), "C03.R2", fi.qual, "the mode is validated before any effect", fi.loc(), construct="mode validation first", message="IH5Record.__init__ touches the file system before validating the open mode")
+    ce = F(ctx, P.func(f"{REC}.create_patch"))
+    guards = ce.calls("self._expect_not_ro()")
+    effs = ce.calls("self._new_container(___)", "__.append(___)")
+    rep.check(bool(guards) and ce.all_hit_before(effs, nodes=guards), "C03.R2", ce.fi.qual, "mode 'r' cannot create patches", ce.fi.loc(), construct="create_patch not-ro", message="create_patch does not refuse records opened 'r'")
+    md = F(ctx, P.func(f"{REC}.mode"))
+    rets = [(i, v) for i, v in md.returns() if v is not None]
+    ap = md.tests("self._allow_patching")
+    ok = bool(rets) and (all(md.x(v) in ("'r+' if self._allow_patching else 'r'", "'r' if not self._allow_patching else 'r+'") for i, v in rets)
+                         or (bool(ap) and all((md.x(v) == "'r+'" and md.hit_before(i, edges=ap)) or (md.x(v) == "'r'" and md.hit_before(i, edges=md.neg(ap))) for i, v in rets) and {md.x(v) for i, v in rets} == {"'r+'", "'r'"}))
+    rep.check(ok, "C03.R2", md.fi.qual, "reported mode reflects _allow_patching", md.fi.loc(), construct="mode property", message="mode property does not reflect _allow_patching")
+    cr = F(ctx, P.func(f"{REC}._create"))
+    trunc = cr.tests("truncate")
+    dl = cr.calls("__.delete_files(___)")
+    rep.check(bool(trunc) and bool(dl) and cr.all_hit_before(dl, edges=trunc), "C03.R2", cr.fi.qual, "an existing record is deleted only when truncation was requested", cr.fi.loc(), construct="truncate guard", message="_create deletes existing files without `truncate`")
+    nc = F(ctx, P.func(f"{REC}._new_container"))
+    mk = [c for _, c, b in nc.call_sites("h5py.File(___)")]
+    ok = bool(mk) and all(fold_str(P, nc.fi, arg_or_kw(c, 1, "mode")) in ("x", "r+") for c in mk) and any(fold_str(P, nc.fi, arg_or_kw(c, 1, "mode")) == "x" and norm(c.args[0]) == nc.fi.params[1] and kwarg(c, "userblock_size") is not None and nc.x(kwarg(c, "userblock_size")) == "USER_BLOCK_SIZE" for c in mk)
+    rep.check(ok, "C03.R2", nc.fi.qual, "new containers are created exclusively ('x'): x / w- / a-when-absent refuse an existing file", nc.fi.loc(), construct="exclusive create", message="_new_container does not create the file with mode 'x'")
 
 
 # ------------------------------------------------------------------------------------------- R3
@@ -390,56 +401,71 @@ def r3_name_language(P, rep, ctx):
         rep.check(not common, "C03.R3", ff.qual, "the character after the record name is never a record-name character (prefix-related records are separated)", ff.loc(pats[0]), construct=f"separator class {tail!r}",
                   message=f"the separator class {tail!r} of find_files' filter admits {common[:6]}, which may occur in record names: files of record 'foo{(common or ['?'])[0]}bar' are attributed to record 'foo' (mode 'w' on 'foo' deletes them)")
         rep.check(infix[0] in sep and ext[0] in sep, "C03.R3", ff.qual, "the separator class admits the patch infix and the file extension", ff.loc(pats[0]), construct=f"separator admits {infix[0]!r},{ext[0]!r}", message="find_files' filter rejects the record's own files")
-    g = ctx.cfg(ff)
-    val = [t.idx for t in g.nodes if t.kind == "test" and norm(t.exprs[0]) == "not cls._is_valid_record_name(record.name)"]
+    f = F(ctx, ff)
+    g = f.g
+    invalid = f.tests("not cls._is_valid_record_name(record.name)", "not cls._is_valid_record_name(__n)")
     fs = [n.idx for n in g.nodes if any(call_attr(x) in ("glob", "rglob", "iterdir") for e in n.exprs if e is not None for x in walk_local(e) if isinstance(x, ast.Call))]
-    rep.check(bool(val) and bool(fs) and all(g.every_path_passes(val, f) for f in fs) and all(g.exit not in g.reach([b for b, l in g.succ[t] if l == "T"]) for t in val), "C03.R3", ff.qual, "record name is validated before the directory is scanned", ff.loc(), construct="name validation in find_files", message="find_files scans the directory before validating the record name (regex/glob metacharacters in the name)")
-    gs = [norm(v) for k, v in local_defs(ff).get("globstr", []) if v is not None]
+    rep.check(f.refuses(invalid) and bool(fs) and f.all_hit_before(fs, nodes=f.test_nodes(invalid)), "C03.R3", ff.qual, "record name is validated before the directory is scanned", ff.loc(), construct="name validation in find_files", message="find_files scans the directory before validating the record name (regex/glob metacharacters in the name)")
+    gs = sorted({f.x(c.args[0]) for _, c, b in f.call_sites("__.glob(__g)")})
     rep.check(gs == ["f'{record.name}*{cls._FILE_EXT}'"], "C03.R3", ff.qual, "candidates are <name>*<ext> in the record's directory", ff.loc(), construct=f"globstr={gs}", message=f"glob pattern is {gs}")
-    cr = P.func(f"{REC}._create")
-    g = ctx.cfg(cr)
-    val = [t.idx for t in g.nodes if t.kind == "test" and norm(t.exprs[0]) == "not cls._is_valid_record_name(record.name)"]
-    eff = [n.idx for n in g.nodes if any(call_attr(x) in ("delete_files", "_new_container", "is_file") for x in g.calls(n.idx))]
-    rep.check(bool(val) and all(g.every_path_passes(val, e) for e in eff), "C03.R3", cr.qual, "record name is validated before anything is created or deleted", cr.loc(), construct="name validation in _create", message="_create touches the file system before validating the record name")
-    iv = P.func(f"{REC}._is_valid_record_name")
-    rep.check("re.match(f'^[{cls._ALLOWED_NAME_CHARS}]+$', name) is not None" in norm(iv.node), "C03.R3", iv.qual, "valid names are non-empty strings over the name alphabet", iv.loc(), construct="_is_valid_record_name", message="_is_valid_record_name is not ^[alphabet]+$")
-    lr = P.func(f"{REC}.list_records")
-    npat = [norm(v) for k, v in local_defs(lr).get("namepat", []) if v is not None]
-    rep.check(npat == ["f'[{cls._ALLOWED_NAME_CHARS}]+(?=[^{cls._ALLOWED_NAME_CHARS}])'"], "C03.R3", lr.qual, "list_records extracts names with the same alphabet and separator class", lr.loc(), construct=f"namepat={npat}", message=f"list_records uses {npat}")
-    nf = P.func(f"{REC}._next_patch_filepath")
-    rep.check("f'{parent}/{self._infer_name(path)}{self._PATCH_INFIX}{patch_index}{self._FILE_EXT}'" in norm(nf.node) and "patch_index = self._ublock(-1).patch_index + 1" in norm(nf.node), "C03.R3", nf.qual, "patch files are named <name><infix><next index><ext>", nf.loc(), construct="patch file name", message="_next_patch_filepath does not build <name><infix><index><ext> from the newest patch index")
-    inf = P.func(f"{REC}._infer_name")
-    rep.check("record_path.name.split(cls._FILE_EXT)[0].split(cls._PATCH_INFIX)[0]" in norm(inf.node), "C03.R3", inf.qual, "the record name is recovered by cutting at extension and infix", inf.loc(), construct="_infer_name", message="_infer_name does not cut at _FILE_EXT / _PATCH_INFIX")
+    cr = F(ctx, P.func(f"{REC}._create"))
+    invalid = cr.tests("not cls._is_valid_record_name(record.name)", "not cls._is_valid_record_name(__n)")
+    eff = cr.calls("__.delete_files(___)", "__._new_container(___)", "__.is_file()")
+    rep.check(cr.refuses(invalid) and cr.all_hit_before(eff, nodes=cr.test_nodes(invalid)), "C03.R3", cr.fi.qual, "record name is validated before anything is created or deleted", cr.fi.loc(), construct="name validation in _create", message="_create touches the file system before validating the record name")
+    iv = F(ctx, P.func(f"{REC}._is_valid_record_name"))
+    rets = [v for _, v in iv.returns() if v is not None]
+    ok = len(rets) >= 1 and all(M.equivalent(iv.xe(v), f"re.match(f'^[{{cls._ALLOWED_NAME_CHARS}}]+$', {iv.fi.params[1]}) is not None") or iv.x(v) == f"bool(re.match(f'^[{{cls._ALLOWED_NAME_CHARS}}]+$', {iv.fi.params[1]}))" or iv.x(v) == f"re.fullmatch(f'[{{cls._ALLOWED_NAME_CHARS}}]+', {iv.fi.params[1]}) is not None" for v in rets)
+    rep.check(ok, "C03.R3", iv.fi.qual, "valid names are non-empty strings over the name alphabet", iv.fi.loc(), construct="_is_valid_record_name", message="_is_valid_record_name is not ^[alphabet]+$")
+    lr = F(ctx, P.func(f"{REC}.list_records"))
+    npat = sorted({lr.x(c.args[0]) for _, c, b in lr.call_sites("re.match(__p, ___)")})
+    rep.check(npat == ["f'[{cls._ALLOWED_NAME_CHARS}]+(?=[^{cls._ALLOWED_NAME_CHARS}])'"], "C03.R3", lr.fi.qual, "list_records extracts names with the same alphabet and separator class", lr.fi.loc(), construct=f"namepat={npat}", message=f"list_records uses {npat}")
+    nf = F(ctx, P.func(f"{REC}._next_patch_filepath"))
+    rets = [nf.x(v) for _, v in nf.returns() if v is not None]
+    want = "Path(f'{Path(self.__files__[0].filename).parent}/{self._infer_name(Path(self.__files__[0].filename))}{self._PATCH_INFIX}{self._ublock(-1).patch_index + 1}{self._FILE_EXT}')"
+    rep.check(rets == [want], "C03.R3", nf.fi.qual, "patch files are named <name><infix><next index><ext>", nf.fi.loc(), construct="patch file name", message="_next_patch_filepath does not build <name><infix><index><ext> from the newest patch index")
+    inf = F(ctx, P.func(f"{REC}._infer_name"))
+    rp = inf.fi.params[1]
+    rets = [inf.x(v) for _, v in inf.returns() if v is not None]
+    rep.check(rets == [f"{rp}.name.split(cls._FILE_EXT)[0].split(cls._PATCH_INFIX)[0]"], "C03.R3", inf.fi.qual, "the record name is recovered by cutting at extension and infix", inf.fi.loc(), construct="_infer_name", message="_infer_name does not cut at _FILE_EXT / _PATCH_INFIX")
 
 
 # ------------------------------------------------------------------------------------------- R4
 def r4_close_discard(P, rep, ctx):
     fi = P.func(f"{REC}.close")
-    g = ctx.cfg(fi)
-    tests = [t.idx for t in g.nodes if t.kind == "test" and norm(t.exprs[0]) in ("self._has_writable and commit", "commit and self._has_writable")]
-    cm = [n.idx for n in g.nodes if any(call_attr(c) == "commit_patch" for c in g.calls(n.idx))]
-    loops = [n.idx for n in g.nodes if n.kind == "for" and "__files__" in norm(n.stmt.iter)]
-    ok = bool(tests) and bool(cm) and bool(loops) and all(g.every_path_passes(cm, l, src=t, src_label="T") for t in tests for l in loops) and all(g.every_path_passes(tests, l) for l in loops)
+    f = F(ctx, fi)
+    g = f.g
+    pending = f.tests("self._has_writable")
+    wanted = f.tests(fi.params[1])
+    cm = f.calls("self.commit_patch()")
+    loops = [n.idx for n in g.nodes if n.kind == "for" and "__files__" in f.x(n.stmt.iter)]
+    closes = [n.idx for n in g.nodes if any(call_attr(c) == "close" and isinstance(c.func, ast.Attribute) and isinstance(c.func.value, ast.Name) and c.func.value.id not in ("self",) for c in g.calls(n.idx))]
+    # the handles are closed only after: commit, or no pending patch, or commit=False
+    ok = bool(pending) and bool(wanted) and bool(cm) and bool(closes) and f.all_hit_before(closes, nodes=cm, edges=f.neg(pending) + f.neg(wanted)) and f.all_hit_before(cm, edges=pending) and f.all_hit_before(cm, edges=wanted)
     rep.check(ok, "C03.R4", fi.qual, "a pending patch is committed before the files are closed (unless commit=False)", fi.loc(), construct="commit before close", message="close() closes the files without committing a pending patch first")
-    closed = [n.idx for n in g.nodes if n.kind == "stmt" and norm(n.stmt) == "self._closed = True"]
-    early = [t.idx for t in g.nodes if t.kind == "test" and norm(t.exprs[0]) == "self._closed"]
-    ok = bool(closed) and bool(early) and all(g.every_path_passes(closed, g.exit, src=t, src_label="F") for t in early)
+    closed = [i for i, v, b in f.stores("self._closed") if norm(v) == "True"]
+    already = f.tests("self._closed")
+    ok = bool(closed) and bool(already) and f.hit_before(g.exit, nodes=closed, edges=already)
     rep.check(ok, "C03.R4", fi.qual, "the record is marked closed on every path", fi.loc(), construct="_closed = True", message="close() can return without marking the record closed")
-    rep.check(any(norm(n.stmt) == "self.__files__ = []" for n in g.nodes if n.kind == "stmt") and any(call_attr(c) == "close" and norm(c.func.value) == "f" for c in local_calls(fi.node)), "C03.R4", fi.qual, "all container handles are closed and dropped", fi.loc(), construct="handles closed", message="close() does not close every container handle / clear the list")
+    cleared = [i for i, v, b in f.stores("self.__files__") if norm(v) in ("[]", "list()")] + f.calls("self.__files__.clear()")
+    rep.check(bool(cleared) and bool(loops) and bool(closes) and f.hit_before(g.exit, nodes=cleared, edges=already), "C03.R4", fi.qual, "all container handles are closed and dropped", fi.loc(), construct="handles closed", message="close() does not close every container handle / clear the list")
     dfl = {a.arg: norm(d) for a, d in zip(fi.node.args.args[-len(fi.node.args.defaults):], fi.node.args.defaults)}
     rep.check(dfl.get("commit") == "True", "C03.R4", fi.qual, "close commits by default", fi.loc(), construct="commit default", message=f"close(commit=...) defaults to {dfl.get('commit')}")
-    ex = P.func(f"{REC}.__exit__")
-    rep.check("self.close()" in norm(ex.node), "C03.R4", ex.qual, "leaving the context manager closes (and commits)", ex.loc(), construct="__exit__", message="__exit__ does not call close()")
-    dp = P.func(f"{REC}.discard_patch")
-    g = ctx.cfg(dp)
-    one = [t for t in g.nodes if t.kind == "test" and norm(t.exprs[0]) == "len(self.__files__) == 1"]
-    dl = [n.idx for n in g.nodes if any(call_attr(c) == "_delete_latest_container" for c in g.calls(n.idx))]
-    ok = bool(one) and bool(dl) and all(g.exit not in g.reach([b for b, l in g.succ[t.idx] if l == "T"]) for t in one) and all(g.every_path_passes([t.idx for t in one], d) for d in dl)
-    rep.check(ok, "C03.R4", dp.qual, "discard never removes the base container", dp.loc(), construct="base protected in discard_patch", message="discard_patch can delete the base container")
-    dc = P.func(f"{REC}._delete_latest_container")
-    t = norm(dc.node)
-    ok = "cfile = self.__files__.pop()" in t and "del self._ublocks[Path(fn)]" in t and "Path(fn).unlink()" in t and "fn = cfile.filename" in t and "cfile.close()" in t
-    rep.check(ok, "C03.R4", dc.qual, "exactly the newest container is closed, forgotten and unlinked", dc.loc(), construct="_delete_latest_container", message="_delete_latest_container does not pop/close/unlink exactly the last container and drop its user block")
+    ex = F(ctx, P.func(f"{REC}.__exit__"))
+    cl = ex.calls("self.close()", "self.close(commit=True)", "self.close(True)")
+    rep.check(bool(cl) and ex.hit_before(ex.g.exit, nodes=cl), "C03.R4", ex.fi.qual, "leaving the context manager closes (and commits)", ex.fi.loc(), construct="__exit__", message="__exit__ does not call close()")
+    dp = F(ctx, P.func(f"{REC}.discard_patch"))
+    only_base = dp.tests("len(self.__files__) == 1", "not len(self.__files__) > 1", "self._has_patches is False")
+    dl = dp.calls("self._delete_latest_container()")
+    ok = bool(dl) and dp.refuses(only_base) and dp.all_hit_before(dl, edges=dp.neg(only_base))
+    rep.check(ok, "C03.R4", dp.fi.qual, "discard never removes the base container", dp.fi.loc(), construct="base protected in discard_patch", message="discard_patch can delete the base container")
+    dc = F(ctx, P.func(f"{REC}._delete_latest_container"))
+    pops = dc.call_sites("self.__files__.pop()") + dc.call_sites("self.__files__.pop(-1)")
+    closes = dc.calls("self.__files__.pop().close()", "self.__files__.pop(-1).close()")
+    unl = dc.calls("Path(self.__files__.pop().filename).unlink()", "Path(self.__files__.pop(-1).filename).unlink()")
+    ubs = dc.deletes("self._ublocks[Path(self.__files__.pop().filename)]") + dc.deletes("self._ublocks[Path(self.__files__.pop(-1).filename)]") + dc.calls("self._ublocks.pop(Path(self.__files__.pop().filename), ___)")
+    pop_nodes = [c for c in local_calls(dc.fi.node) if M.match("self.__files__.pop()", c) is not None or M.match("self.__files__.pop(-1)", c) is not None]
+    ok = len(pop_nodes) == 1 and bool(closes) and bool(unl) and bool(ubs) and all(dc.hit_before(dc.g.exit, nodes=x) for x in (closes, unl, ubs))
+    rep.check(ok, "C03.R4", dc.fi.qual, "exactly the newest container is closed, forgotten and unlinked", dc.fi.loc(), construct="_delete_latest_container", message="_delete_latest_container does not pop/close/unlink exactly the last container and drop its user block")
 
 
 # ------------------------------------------------------------------------------------------- R5
